@@ -441,4 +441,48 @@ theorem ders1_eq (t : ℕ → K) (j0 q : ℕ) (u : K) (r : ℕ) (hr : r ≤ q + 
     push_cast
     ring
 
+
+/-! ## derivative of a spline as a spline -/
+
+/-- Cox-de Boor on the shortened knot vector `kv[1:-1]` (accessor shifted by one) -/
+theorem coxS_shift (t : ℕ → K) (s : ℕ) (u : K) :
+    ∀ q i, coxS (fun k => t (k + 1)) s u q i = coxS t (s + 1) u q (i + 1) := by
+  intro q
+  induction q with
+  | zero => intro i; simp [coxS]
+  | succ q ih =>
+    intro i
+    have e1 : i + q + 1 + 1 = i + 1 + q + 1 := by omega
+    have e2 : i + q + 2 + 1 = i + 1 + q + 2 := by omega
+    simp only [coxS, ih, e1, e2]
+
+/-- **Abel summation**: `Σ_i c_i N'_{i,p}(u) = Σ_i d_i N_{i,p-1}(u)` on the shortened knot vector with
+`d_i = p (c_{i+1} - c_i)/(t_{i+p+1} - t_{i+1})`; `p = q+1`, span `s = j+q+1`, active functions `j .. j+q+1`. -/
+theorem spline_derivative_sum (t : ℕ → K) (c : ℕ → K) (j q : ℕ) (u : K) :
+    ∑ r ∈ Finset.range (q + 2), c (j + r) * dcoxS t (j + q + 1) u 1 (q + 1) (j + r)
+      = ∑ r ∈ Finset.range (q + 1),
+          (((q + 1 : ℕ) : K) / (t (q + 1 + 1 + (j + r)) - t (1 + (j + r))) * (c (j + r + 1) - c (j + r)))
+            * coxS (fun k => t (k + 1)) (j + q) u q (j + r) := by
+  have hA0 : coxS t (j + q + 1) u q j = 0 := coxS_support t _ u q _ (by omega)
+  have hAl : coxS t (j + q + 1) u q (j + (q + 1) + 1) = 0 := coxS_support t _ u q _ (by omega)
+  simp only [dcoxS]
+  have hsplit : ∀ r, c (j + r) * (((q + 1 : ℕ) : K) * (coxS t (j + q + 1) u q (j + r) / (t (j + r + q + 1) - t (j + r))
+        - coxS t (j + q + 1) u q (j + r + 1) / (t (j + r + q + 2) - t (j + r + 1))))
+      = ((q + 1 : ℕ) : K) * (c (j + r) * (coxS t (j + q + 1) u q (j + r) / (t (j + r + q + 1) - t (j + r))))
+        - ((q + 1 : ℕ) : K) * (c (j + r) * (coxS t (j + q + 1) u q (j + r + 1) / (t (j + r + q + 2) - t (j + r + 1)))) := by
+    intro r; ring
+  simp only [hsplit]
+  rw [Finset.sum_sub_distrib, Finset.sum_range_succ', Finset.sum_range_succ _ (q + 1)]
+  simp only [Nat.add_zero, hA0, hAl, zero_div, mul_zero, add_zero]
+  rw [← Finset.sum_sub_distrib]
+  apply Finset.sum_congr rfl
+  intro r _
+  rw [coxS_shift]
+  have e1 : j + (r + 1) = j + r + 1 := by omega
+  have e2 : j + r + 1 + q + 1 = j + r + q + 2 := by omega
+  have e3 : q + 1 + 1 + (j + r) = j + r + q + 2 := by omega
+  have e4 : 1 + (j + r) = j + r + 1 := by omega
+  rw [e1, e2, e3, e4]
+  ring
+
 end Pyiga.BSpline
